@@ -1112,4 +1112,177 @@ theorem optimize_error (code : List PInstr) (e : Panic) (h : optimize code = .er
       all_goals first | (simp at hr; done) | (simp only [Except.error.injEq] at hr; exact hr.symm)
     · simp [nilTransferAndConvertPattern] at hr
   · exact Or.inr h
+
+/-! ### the uint16 overflow panic of `patchJumps` is unreachable with the real table -/
+
+theorem patchDirect_error_witness (all : List (Nat × Int)) : ∀ (js : List Nat) (opt : List PInstr) (e : Panic),
+    js.Nodup → (∀ j ∈ js, j < opt.length) → patchDirect all opt js = .error e →
+      ∃ j ∈ js, ∃ ins, opt[j]? = some ins ∧ (ins.target : Int) + shiftSum all ins.target > 65535 := by
+  intro js
+  induction js with
+  | nil => intro opt e _ _ h; simp [patchDirect] at h
+  | cons j0 js ih =>
+    intro opt e hnd hlt h
+    unfold patchDirect at h
+    have hj := hlt j0 List.mem_cons_self
+    have hget := List.getElem?_eq_getElem hj
+    rw [hget] at h
+    simp only at h
+    rw [List.nodup_cons] at hnd
+    split at h
+    · rename_i hov
+      exact ⟨j0, List.mem_cons_self, _, hget, hov⟩
+    · obtain ⟨j, hjm, ins, hins, hov⟩ := ih _ _ hnd.2
+        (fun j' hj' => by rw [List.length_set]; exact hlt j' (List.mem_cons_of_mem _ hj')) h
+      have hne : j0 ≠ j := fun heq => hnd.1 (heq ▸ hjm)
+      rw [List.getElem?_set_ne hne] at hins
+      exact ⟨j, List.mem_cons_of_mem _ hjm, ins, hins, hov⟩
+
+theorem jumpsOf_get : ∀ (segs : List Seg) (pre : List PInstr) (j : Nat), j ∈ jumpsOf pre.length segs →
+    ∃ x, (pre ++ outOf segs)[j]? = some x ∧ x ∈ srcOf segs ∧ isJump x = true := by
+  intro segs
+  induction segs with
+  | nil => intro pre j h; simp [jumpsOf] at h
+  | cons s rest ih =>
+    intro pre j h
+    cases s with
+    | copy y =>
+      simp only [jumpsOf] at h
+      have hrec : j ∈ jumpsOf (pre ++ [y]).length rest →
+          ∃ x, (pre ++ outOf (Seg.copy y :: rest))[j]? = some x ∧ x ∈ srcOf (Seg.copy y :: rest) ∧ isJump x = true := by
+        intro h'
+        obtain ⟨x, h1, h2, h3⟩ := ih (pre ++ [y]) j h'
+        refine ⟨x, ?_, ?_, h3⟩
+        · simpa [outOf, Seg.out] using h1
+        · simp only [srcOf, List.flatMap_cons, Seg.src, List.singleton_append, List.mem_cons]
+          exact Or.inr h2
+      split at h
+      · rename_i hjy
+        rw [List.mem_cons] at h
+        rcases h with h | h
+        · subst h
+          exact ⟨y, by simp [outOf, Seg.out], by simp [srcOf, Seg.src], hjy⟩
+        · exact hrec (by simpa using h)
+      · exact hrec (by simpa using h)
+    | rewrite w r =>
+      simp only [jumpsOf] at h
+      obtain ⟨x, h1, h2, h3⟩ := ih (pre ++ r) j (by simpa using h)
+      refine ⟨x, ?_, ?_, h3⟩
+      · simpa [outOf, Seg.out] using h1
+      · simp only [srcOf, List.flatMap_cons, Seg.src, List.mem_append]
+        exact Or.inr h2
+
+theorem shiftSum_nonpos {sh : List (Nat × Int)} (h : ∀ x ∈ sh, x.2 ≤ 0) (t : Nat) : shiftSum sh t ≤ 0 := by
+  induction sh with
+  | nil => simp [shiftSum]
+  | cons a rest ih =>
+    obtain ⟨o, s⟩ := a
+    have h1 := h (o, s) List.mem_cons_self
+    have h2 := ih (fun x hx => h x (List.mem_cons_of_mem _ hx))
+    simp only [shiftSum]
+    simp only at h1
+    split <;> omega
+
+/-- no Replacement of the real table grows the code -/
+theorem allPatterns_shrink {c : Pattern} (hc : c ∈ allPatterns) {w r : List PInstr}
+    (hw : w.map (·.op) = c.opcodes) (hr : c.replace w = .ok r) : r.length ≤ w.length := by
+  simp only [allPatterns, List.mem_cons, List.not_mem_nil, or_false] at hc
+  rcases hc with rfl | rfl | rfl | rfl
+  all_goals
+    match w, hw with
+    | [a, b], _ => ?_
+    | [], hw => simp [getFieldLocalPattern, constantTransferAndConvertPattern,
+        pathTransferAndConvertPattern, nilTransferAndConvertPattern] at hw
+    | [_], hw => simp [getFieldLocalPattern, constantTransferAndConvertPattern,
+        pathTransferAndConvertPattern, nilTransferAndConvertPattern] at hw
+    | _ :: _ :: _ :: _, hw => simp [getFieldLocalPattern, constantTransferAndConvertPattern,
+        pathTransferAndConvertPattern, nilTransferAndConvertPattern] at hw
+  · simp only [getFieldLocalPattern, Except.ok.injEq] at hr; subst hr; simp
+  · simp only [constantTransferAndConvertPattern] at hr
+    split at hr <;> (simp only [Except.ok.injEq] at hr; subst hr; simp)
+  · simp only [pathTransferAndConvertPattern] at hr
+    repeat' split at hr
+    all_goals first | (simp only [Except.ok.injEq] at hr; subst hr; simp; done) | (simp at hr; done)
+  · simp only [nilTransferAndConvertPattern, Except.ok.injEq] at hr; subst hr; simp
+
+theorem shiftsOf_nonpos {jt : List Nat} : ∀ (segs : List Seg) (i : Nat), Legit allPatterns jt i segs →
+    ∀ x ∈ shiftsOf i segs, x.2 ≤ 0 := by
+  intro segs
+  induction segs with
+  | nil => intro i _ x hx; simp [shiftsOf] at hx
+  | cons s rest ih =>
+    intro i hl x hx
+    cases s with
+    | copy y => simp only [Legit] at hl; simp only [shiftsOf] at hx; exact ih _ hl x hx
+    | rewrite w r =>
+      simp only [Legit] at hl
+      obtain ⟨⟨c, hc, hw, _, hr, _⟩, hl'⟩ := hl
+      simp only [shiftsOf, List.mem_cons] at hx
+      rcases hx with hx | hx
+      · subst hx
+        have := allPatterns_shrink hc hw hr
+        simp only; omega
+      · exact ih _ hl' x hx
+
+/-- **With the real pattern table and jump targets that fit uint16 (every Go `InstructionJump*`),
+the pass panics at most with the unknown-path-domain `unreachable`** — in particular the
+"peephole shifted jump target past max uint16" panic of `patchJumps` cannot fire. -/
+theorem optimize_no_overflow (code : List PInstr)
+    (hu : ∀ x ∈ code, isJump x = true → x.target ≤ 65535) (e : Panic)
+    (h : optimize code = .error e) : e = .unreachable := by
+  rcases optimize_error code e h with h' | h'
+  · exact h'
+  · exfalso
+    subst h'
+    unfold optimize optimizeWith at h
+    simp only at h
+    rw [mainLoop_eq] at h
+    cases hs : segments allPatterns (collectJumpTargets code) code.length 0 code with
+    | error e' =>
+      rw [hs] at h; simp only [Except.error.injEq] at h
+      have hse := segments_error' _ _ _ _ _ _ (Nat.le_refl _) hs
+      obtain ⟨c, w, hc, hw, hr⟩ := hse
+      subst h
+      -- a Replacement of the real table never returns `overflow`
+      simp only [allPatterns, List.mem_cons, List.not_mem_nil, or_false] at hc
+      rcases hc with rfl | rfl | rfl | rfl
+      all_goals
+        match w, hw with
+        | [a, b], _ => ?_
+        | [], hw => simp [getFieldLocalPattern, constantTransferAndConvertPattern,
+            pathTransferAndConvertPattern, nilTransferAndConvertPattern] at hw
+        | [_], hw => simp [getFieldLocalPattern, constantTransferAndConvertPattern,
+            pathTransferAndConvertPattern, nilTransferAndConvertPattern] at hw
+        | _ :: _ :: _ :: _, hw => simp [getFieldLocalPattern, constantTransferAndConvertPattern,
+            pathTransferAndConvertPattern, nilTransferAndConvertPattern] at hw
+      · simp [getFieldLocalPattern] at hr
+      · simp only [constantTransferAndConvertPattern] at hr; split at hr <;> simp at hr
+      · simp only [pathTransferAndConvertPattern] at hr
+        repeat' split at hr
+        all_goals simp at hr
+      · simp [nilTransferAndConvertPattern] at hr
+    | ok segs =>
+      rw [hs] at h
+      simp only [List.nil_append, List.length_nil] at h
+      obtain ⟨hsrc, hlegit⟩ := segments_spec _ _ _ _ _ _ hs
+      have hperm := sortBy_perm (keyOf (outOf segs)) (jumpsOf 0 segs)
+      have hnd : (sortBy (keyOf (outOf segs)) (jumpsOf 0 segs)).Nodup :=
+        hperm.symm.nodup (jumpsOf_nodup segs 0)
+      have hd := patchJumps_eq_direct (shiftsOf 0 segs) (sortBy (keyOf (outOf segs)) (jumpsOf 0 segs))
+        (outOf segs) (shiftsOf_sorted segs 0) (sortBy_sorted _ _) hnd
+      change patchJumps (outOf segs) (sortBy (keyOf (outOf segs)) (jumpsOf 0 segs)) (shiftsOf 0 segs) 0
+        = .error .overflow at h
+      rw [hd] at h
+      obtain ⟨j, hjm, ins, hins, hov⟩ := patchDirect_error_witness _ _ _ _ hnd (by
+        intro j hj
+        have := jumpsOf_upper segs 0 j (hperm.mem_iff.1 hj)
+        omega) h
+      obtain ⟨x, hx1, hx2, hx3⟩ := jumpsOf_get segs [] j (by simpa using hperm.mem_iff.1 hjm)
+      simp only [List.nil_append] at hx1
+      rw [hins] at hx1
+      simp only [Option.some.injEq] at hx1
+      subst hx1
+      have hb := hu ins (hsrc ▸ hx2) hx3
+      have hs0 := shiftSum_nonpos (shiftsOf_nonpos segs 0 hlegit) ins.target
+      omega
 end Verif.Proofs.Peephole
